@@ -382,6 +382,7 @@ func BuildSidecarOutboundVirtualHosts(node *model.Proxy, push *model.PushContext
 			DNSCapture:      bool(node.Metadata.DNSCapture),
 			DNSAutoAllocate: bool(node.Metadata.DNSAutoAllocate),
 			AllowAny:        util.IsAllowAnyOutbound(node) || util.IsAllowAnyDynamicDNSOutbound(node),
+			CatchAllCluster: catchAllCluster(node),
 			IPMode:          node.GetIPMode(),
 			ListenerPort:    listenerPort,
 			Services:        services,
@@ -800,6 +801,21 @@ func getUniqueAndSharedDNSDomain(fqdnHostname, proxyDomain string) (partsUnique 
 		partsShared = slices.Reverse(sharedSuffixesInReverse)
 	}
 	return partsUnique, partsShared
+}
+
+// catchAllCluster names the cluster buildCatchAllVirtualHost routes unknown traffic to for this proxy; it is part
+// of the RDS cache key.
+func catchAllCluster(node *model.Proxy) string {
+	if util.IsAllowAnyDynamicDNSOutbound(node) {
+		return util.AllowAnyDynamicDNSCluster
+	}
+	if util.IsAllowAnyOutbound(node) {
+		if egressProxy := node.SidecarScope.OutboundTrafficPolicy.EgressProxy; egressProxy != nil {
+			return istio_route.GetDestinationCluster(egressProxy, nil, 0)
+		}
+		return util.PassthroughCluster
+	}
+	return ""
 }
 
 func buildCatchAllVirtualHost(node *model.Proxy, includeRequestAttemptCount bool, appendXForwardedHost bool) *route.VirtualHost {
